@@ -49,8 +49,9 @@ def kernel_cfgs(t):
             hi_t = (1 << (w - 1)) - 1 if signed else (1 << w) - 1
             doms = {(lo_t, hi_t), (0, hi_t), (lo_t, max(lo_t, hi_t // 2)), (min(hi_t, 1), hi_t), (lo_t, min(hi_t, lo_t + 5)), (max(lo_t, hi_t - 6), hi_t),
                     (max(lo_t, -3), min(hi_t, 3))}
-            for lo, hi in doms:
-                if lo < hi:
+            doms |= {(lo_t, lo_t), (hi_t, hi_t), (max(lo_t, -1), max(lo_t, -1)), (max(lo_t, -7), max(lo_t, -7)), (min(hi_t, 5), min(hi_t, 5))}
+            for lo, hi in sorted(doms):
+                if lo <= hi:
                     out.append((w, signed, lo, hi))
             # multi-range domains (inside/rangelist, != holes, enum-like value sets): every range may be picked
             if w >= 3:
@@ -58,16 +59,18 @@ def kernel_cfgs(t):
                 multis = [[[lo_t, lo_t + 1], [hi_t - 1, hi_t]], [[lo_t, lo_t + max(1, q)], [lo_t + 3 * q + 1, lo_t + 4 * q], [hi_t - q, hi_t]],
                           [[lo_t + 1, lo_t + 2], [lo_t + 4, lo_t + 5]]]
                 if signed:
+                    multis.append([[-7, -7], [-1, -1]])
+                    multis.append([[lo_t, lo_t], [-2, -2], [3, 3]])
                     multis.append([[-2, -1], [1, 2]])
                     multis.append([[lo_t, -1], [1, hi_t]])
                 else:
                     multis.append([[0, 3], [hi_t // 2 + 1, hi_t // 2 + 4]])
+                    multis.append([[1, 1], [hi_t // 2 + 1, hi_t // 2 + 1], [hi_t, hi_t]])
                 for rs in multis:
                     ok = all(a <= b for a, b in rs) and all(rs[i][1] < rs[i + 1][0] for i in range(len(rs) - 1)) and rs[0][0] >= lo_t and rs[-1][1] <= hi_t
                     if ok:
                         for k in range(len(rs)):
-                            if rs[k][0] < rs[k][1]:
-                                out.append((w, signed, rs, k))
+                            out.append((w, signed, rs, k))
     return out
 
 
@@ -120,10 +123,12 @@ def main():
                 chk.harness_error("kernel counterexample did not replay on the real Boolector: %s" % (r,))
                 continue
             dom = [[cfg[2], cfg[3]]] if not isinstance(cfg[2], list) else cfg[2]
-            chk.violation({"kind": "swizzle_target", "signed": cfg[1], "multi_range": len(dom) > 1},
-                          "swizzle constraints for a %d-bit %s field with domain %s (range %s picked, target %s) do not force the field to the target: "
-                          "f == %s stays possible (replayed with the real Boolector)" % (cfg[0], "signed" if cfg[1] else "unsigned", dom,
-                                                                                         cfg[3] if len(dom) > 1 else 0, r.get("t"), r.get("f")),
+            rejects = r.get("t") == r.get("f")
+            chk.violation({"kind": "swizzle_target", "signed": cfg[1], "multi_range": len(dom) > 1, "rejects_target": rejects},
+                          "swizzle constraints for a %d-bit %s field with domain %s (range %s picked, target %s) %s (replayed with the real Boolector)" % (
+                              cfg[0], "signed" if cfg[1] else "unsigned", dom, cfg[3] if len(dom) > 1 else 0, r.get("t"),
+                              "reject the target itself, are dropped and leave the field to the solver's default model" if rejects else
+                              "do not force the field to the target: f == %s stays possible" % (r.get("f"),)),
                           {"engine": "kernel", "cfg": cfg, "model": r["model"]})
         elif r["verdict"] != "unsat":
             chk.note_inconclusive("kernel %s: %s" % (cfg, r["verdict"]))
